@@ -137,8 +137,10 @@ def prune(keep=3):
     cur = os.path.join(BUILD, tree_key())
     ds = [d for d in ds if d != cur]
     ds.sort(key=lambda d: os.path.getmtime(d), reverse=True)
+    now = time.time()
     for d in ds[keep - 1:]:
-        shutil.rmtree(d, ignore_errors=True)
+        if now - os.path.getmtime(d) > 3 * 3600:     # never remove a tree another process may be using
+            shutil.rmtree(d, ignore_errors=True)
     try:
         os.utime(cur, None)
     except OSError:
